@@ -307,12 +307,24 @@ package tds
 //@ # Packet reader
 //@ func (*PacketHeader).ReadFrom returns (n, err)
 //@   requires [nonnil-reader] nonnil(r)
+//@   modifies header.*, r.$tpos, r.$tfail
 //@   ensures [n8] err == nil ==> n == 8
+//@   ensures [consumed] err == nil ==> r.$tpos == old(r.$tpos) + 8
+//@   ensures [decoded] err == nil ==> header.MsgType == r.$tin[old(r.$tpos)] && header.Status == r.$tin[old(r.$tpos) + 1] && header.Length == r.$tin[old(r.$tpos) + 2] * 256 + r.$tin[old(r.$tpos) + 3] && header.Channel == r.$tin[old(r.$tpos) + 4] * 256 + r.$tin[old(r.$tpos) + 5] && header.PacketNr == r.$tin[old(r.$tpos) + 6] && header.Window == r.$tin[old(r.$tpos) + 7]
+//@   ensures [error-only-if-transport-failed] err != nil ==> r.$tfail
 //@ func (*PacketHeader).Write returns (n, err)
-//@   ensures [n8] err == nil ==> n == 8
+//@   modifies header.*
+//@   ensures [n8] err == nil ==> n == 8 && len(bs) == 8
+//@   ensures [ok] len(bs) == 8 ==> err == nil
+//@   ensures [decoded] err == nil ==> header.MsgType == bs[0] && header.Status == bs[1] && header.Length == bs[2] * 256 + bs[3] && header.Channel == bs[4] * 256 + bs[5] && header.PacketNr == bs[6] && header.Window == bs[7]
 //@ func (*Packet).ReadFrom returns (total, err)
 //@   requires [nonnil-ctx] nonnil(ctx)
 //@   requires [nonnil-reader] nonnil(reader)
+//@   modifies packet.*, reader.$tpos, reader.$tfail
+//@   ensures [consumed] err == nil ==> total == packet.Header.Length && reader.$tpos == old(reader.$tpos) + packet.Header.Length
+//@   ensures [header] err == nil ==> packet.Header.MsgType == reader.$tin[old(reader.$tpos)] && packet.Header.Status == reader.$tin[old(reader.$tpos) + 1] && packet.Header.Length == reader.$tin[old(reader.$tpos) + 2] * 256 + reader.$tin[old(reader.$tpos) + 3] && packet.Header.Channel == reader.$tin[old(reader.$tpos) + 4] * 256 + reader.$tin[old(reader.$tpos) + 5]
+//@   ensures [body] err == nil ==> packet.Data != nil && len(packet.Data) == packet.Header.Length - 8 && fresh(packet.Data) && (forall j int :: 0 <= j && j < len(packet.Data) ==> packet.Data[j] == reader.$tin[old(reader.$tpos) + 8 + j])
+//@   ensures [error-only-if-transport-failed-or-cancelled] err != nil ==> reader.$tfail || ctx.$done
 //@   loop 0:
 //@     invariant [n8] n == 8 && 8 <= totalBytes && totalBytes - 8 <= len(packet.Data)
 //@     invariant [ctx] nonnil(timeoutCtx) && cancel != nil
